@@ -88,7 +88,7 @@ Proof. exact main_perm_local_centered_gram. Qed.
 Print Assumptions perm_local_centered_gram.
 
 (* global alignment matrices of the locally linear family (linear_weight_matrix: KLLE, NPE;
-   tangent_weight_matrix: KLTSA, LLTSA): the triplets summed by sparse_matrix_from_triplets; the
+   tangent_weight_matrix: KLTSA, LLTSA; hessian_weight_matrix: HLLE): the triplets summed by sparse_matrix_from_triplets; the
    local solves / local eigenvectors are oracle values w, Gx indexed by (sample, position) *)
 Theorem perm_alignment_matrices : forall F (Fo : FieldOps F) (Ff : IsField F) n k p q nb
     (w w' : nat -> nat -> F) (Gx Gx' : nat -> mat F) shift,
@@ -96,7 +96,8 @@ Theorem perm_alignment_matrices : forall F (Fo : FieldOps F) (Ff : IsField F) n 
   (forall y a, y < n -> w' (p y) a = w y a) ->
   (forall y a b, y < n -> Gx' (p y) a b = Gx y a b) ->
   meq n n (klle_M n k (pnbrs p q nb) w' shift) (pact q (klle_M n k nb w shift)) /\
-  meq n n (kltsa_M n k (pnbrs p q nb) Gx' shift) (pact q (kltsa_M n k nb Gx shift)).
+  meq n n (kltsa_M n k (pnbrs p q nb) Gx' shift) (pact q (kltsa_M n k nb Gx shift)) /\
+  meq n n (hlle_M n k (pnbrs p q nb) Gx') (pact q (hlle_M n k nb Gx)).
 Proof. exact main_perm_alignment_matrices. Qed.
 Print Assumptions perm_alignment_matrices.
 
